@@ -78,7 +78,12 @@ impl<T> Receiver<T> {
     pub fn try_recv(&mut self) -> Result<Option<T>, ChannelClosed> {
         match self.rx.pop() {
             Ok(val) => Ok(Some(val)),
-            Err(_) if self.rx.is_abandoned() => Err(ChannelClosed),
+            // The sender may have pushed its last messages and exited between the `pop` above and
+            // the `is_abandoned` check, so look again before reporting the channel as closed.
+            Err(_) if self.rx.is_abandoned() => match self.rx.pop() {
+                Ok(val) => Ok(Some(val)),
+                Err(_) => Err(ChannelClosed),
+            },
             Err(_) => Ok(None),
         }
     }
